@@ -25,7 +25,7 @@ ASSUMPTIONS = [
     'decided by this check only',
 ]
 
-SHAPES = ['scalar', '0d', 'n', '1', '0', 'mn']
+SHAPES = ['scalar', '0d', 'n', '1', '0', 'mn', 'mn', 'n']
 
 
 def shaped(rng, kind, nx, ny):
@@ -44,6 +44,19 @@ def shaped(rng, kind, nx, ny):
     m, n = rng.randint(1, 3), rng.randint(2, 4)
     return (np.array([[rng.uniform(0, nx - 1) for _ in range(n)] for _ in range(m)]),
             np.array([[rng.uniform(0, ny - 1) for _ in range(n)] for _ in range(m)]))
+
+
+def relayout(rng, a):
+    """the same values in another memory layout (Fortran order / transposed view for 2-d, strided or reversed
+    view for 1-d): the conversions are pointwise maps whatever the layout of their arguments"""
+    if not isinstance(a, np.ndarray) or a.ndim == 0 or a.size < 2:
+        return a
+    if a.ndim == 2:
+        return np.asfortranarray(a) if rng.random() < 0.5 else np.ascontiguousarray(a.T).T
+    k = rng.random()
+    if k < 0.5:
+        return np.repeat(a, 2)[::2]
+    return a[::-1].copy()[::-1]
 
 
 def shape_of(v):
@@ -93,9 +106,17 @@ def scenario(ctx, lines, pend):
         d.update(kw)
         ctx.oracle_fail(case, d)
 
+    lay = shp in ('mn', 'n') and rng.random() < 0.5
+    if lay:
+        ctx.branch('layout:non-contiguous')
+
+    def L(a):
+        return relayout(rng, np.asarray(a)) if lay else a
     try:
+        x, y = L(x), L(y)
         ra, dec = c.det_to_world(x, y)
         tx, ty = c.det_to_tanp(x, y)
+        ra, dec, tx, ty = L(ra), L(dec), L(tx), L(ty)
         for nm, v in (('det_to_world', ra), ('det_to_world', dec), ('det_to_tanp', tx), ('det_to_tanp', ty)):
             if shape_of(v) != shape_of(x):
                 fail('output shape differs from input shape', method=nm, got=list(shape_of(v)),
@@ -104,6 +125,7 @@ def scenario(ctx, lines, pend):
         x3, y3 = c.tanp_to_det(tx, ty)
         ra2, dec2 = c.tanp_to_world(tx, ty)
         tx2, ty2 = c.world_to_tanp(ra, dec)
+        ra2, dec2, tx2, ty2 = L(ra2), L(dec2), L(tx2), L(ty2)
         tx3, ty3 = c.world_to_tanp(ra2, dec2)
         for nm, v in (('world_to_det', x2), ('tanp_to_det', x3), ('tanp_to_world', ra2), ('world_to_tanp', tx2)):
             if shape_of(v) != shape_of(x):
@@ -147,18 +169,33 @@ def scenario(ctx, lines, pend):
         fail('conversion raised', error='%s: %s' % (type(ex).__name__, ex))
 
     # pass-through wrappers of WCSImageCatalog
-    if shp in ('n', 'scalar') and rng.random() < 0.3:
+    if shp in ('n', 'scalar') and rng.random() < 0.5:
         from tweakwcs.wcsimage import WCSImageCatalog
         from astropy.table import Table
+        import warnings
         cat = Table([[1.0, 2.0], [3.0, 4.0]], names=['x', 'y'])
-        wic = WCSImageCatalog(cat, c)
-        for nm in ('det_to_world', 'det_to_tanp'):
-            a = getattr(wic, nm)(x, y)
-            b = getattr(c, nm)(x, y)
-            if not (np.array_equal(np.asarray(a[0]), np.asarray(b[0])) and
-                    np.array_equal(np.asarray(a[1]), np.asarray(b[1]))):
-                fail('WCSImageCatalog wrapper differs from the corrector', method=nm)
-        ctx.branch('wrappers')
+        # the catalog object is built on the ORIGINAL corrector or on the current one, and the current
+        # corrector is then (re)assigned through one of its two setters: all six wrappers follow
+        how = rng.choice(['init', 'corrector-setter', 'tpwcs-setter'])
+        wic = WCSImageCatalog(cat, c if how == 'init' else c0)
+        with warnings.catch_warnings():
+            warnings.simplefilter('ignore')
+            if how == 'corrector-setter':
+                wic.corrector = c
+            elif how == 'tpwcs-setter':
+                wic.tpwcs = c
+        try:
+            args = {'det_to_world': (x, y), 'det_to_tanp': (x, y), 'world_to_det': (ra, dec),
+                    'world_to_tanp': (ra, dec), 'tanp_to_det': (tx, ty), 'tanp_to_world': (tx, ty)}
+            for nm, (p, q) in args.items():
+                a = getattr(wic, nm)(p, q)
+                b = getattr(c, nm)(p, q)
+                if not (np.array_equal(np.asarray(a[0]), np.asarray(b[0])) and
+                        np.array_equal(np.asarray(a[1]), np.asarray(b[1]))):
+                    fail('WCSImageCatalog wrapper differs from its corrector', method=nm, assigned_by=how)
+        except Exception as ex:
+            fail('WCSImageCatalog wrapper raised', error='%s: %s' % (type(ex).__name__, ex), assigned_by=how)
+        ctx.branch('wrappers:' + how)
 
     # model: det_to_tanp and sky chart position in the same state
     if not getattr(ctx, 'search_only', False) and np.size(x) and rng.random() < 0.6:
